@@ -104,7 +104,7 @@ pub use ohkami_lib::stream::{self, Stream, StreamExt};
 /// 
 /// ## Note
 /// 
-/// Invalid Cookie that doesn't contain `=` or contains multiple `=`s is just ignored.
+/// Invalid Cookie that doesn't contain `=` is just ignored.
 /// 
 /// ## Example
 /// 
@@ -122,10 +122,8 @@ pub use ohkami_lib::stream::{self, Stream, StreamExt};
 /// ```
 pub fn iter_cookies(raw: &str) -> impl Iterator<Item = (&str, &str)> {
     raw.split("; ").filter_map(|key_value| {
-        let mut key_value = key_value.split('=');
-        let key   = key_value.next()?;
-        let value = key_value.next()?;
-        key_value.next().is_none().then_some((key, value))
+        /* only the first `=` separates: a value may contain `=` (RFC 6265 cookie-octet) */
+        key_value.split_once('=')
     })
 }
 
